@@ -5,7 +5,7 @@ CONSTANTS
   Root = "r"
   Depths = {0}
   MaxImports = 1
-  FaultKinds = {"read", "importsyntax", "body", "foreign"}
+  FaultKinds = {"read", "importsyntax", "body", "foreign", "compiled"}
 INVARIANTS TypeOK ReadOnce ReadOnlyClaimed AlwaysClean
 PROPERTY Terminates
 CHECK_DEADLOCK FALSE
